@@ -68,7 +68,7 @@ func (c06) Budget(tier string) runner.Budget {
 
 func (c06) Describe() runner.Description {
 	return runner.Description{
-		Rule:        "each plan: 3..16 blocks, one transaction per block in ~80% of blocks (so the per-transaction statement is judged), value-heavy mix: multi-target transfers that fail part-way, zero/fractional/>18-decimal/negative/huge amounts (negative also as the transfer value of contract creations and calls), fee with insufficient balance, contract create with endowment (succeeding and failing; native and wrapped-Ethereum type 188 form), calls with value into programs that forward value, AUTHCALLs with value through a contract that holds an externally owned account's authorisation (sponsor = origin, often the poor account), revert, burn all gas after moving value, self-destruct to the caller / to themselves, gas limits at and below the intrinsic cost (gas starvation), miner apply/add-stake/refund (stake lock and escrow), heights jumping to escrow release heights. After every block over the closed universe U (harness accounts, fee account, every contract ever created, miner accounts, escrow beneficiaries): sum(after) - sum(before) = + escrow released at this height (read from the escrow entries before the block) - stake locked by accepted apply/add-stake - balance of a contract that self-destructed naming itself; every balance in [0, 2^256); a failed transaction leaves the sum unchanged; an accepted stake refund moves exactly what leaves the miner's recorded stake into the escrow of its release height. Stake-opcode plans (6%): a contract that is the account of a registered validator executes STAKE / UNSTAKE / UNSTAKEALL with seeded operands (whole tokens, fractions, 1 wei, amounts that dismiss the miner), one per block, with jumps to the release heights: balances + recorded stake + escrow of the release heights must stay constant. distinct_nontrivial = distinct (tx kind, status, sum-delta sign) sequences with at least one failed value-moving transaction.",
+		Rule:        "each plan: 3..16 blocks, one transaction per block in ~80% of blocks (so the per-transaction statement is judged), value-heavy mix: multi-target transfers that fail part-way, zero/fractional/>18-decimal/negative/huge amounts (negative also as the transfer value of contract creations and calls), fee with insufficient balance, contract create with endowment (succeeding and failing; native and wrapped-Ethereum type 188 form), calls with value into programs that forward value, AUTHCALLs with value through a contract that holds an externally owned account's authorisation (sponsor = origin, often the poor account), revert, burn all gas after moving value, self-destruct to the caller / to themselves, gas limits at and below the intrinsic cost (gas starvation) and declared limits whose fee does not fit 64 bits, miner apply/add-stake/refund (stake lock and escrow), heights jumping to escrow release heights. After every block over the closed universe U (harness accounts, fee account, every contract ever created, miner accounts, escrow beneficiaries): sum(after) - sum(before) = + escrow released at this height (read from the escrow entries before the block) - stake locked by accepted apply/add-stake - balance of a contract that self-destructed naming itself; every balance in [0, 2^256); a failed transaction leaves the sum unchanged; an accepted stake refund moves exactly what leaves the miner's recorded stake into the escrow of its release height. Stake-opcode plans (6%): a contract that is the account of a registered validator executes STAKE / UNSTAKE / UNSTAKEALL with seeded operands (whole tokens, fractions, 1 wei, amounts that dismiss the miner), one per block, with jumps to the release heights: balances + recorded stake + escrow of the release heights must stay constant. distinct_nontrivial = distinct (tx kind, status, sum-delta sign) sequences with at least one failed value-moving transaction.",
 		Assumptions: []string{"the address universe is closed under the generated transactions (targets, beneficiaries and created contracts are added as they appear)", "block rewards are scheduled into per-height escrow and only enter balances when released; the released amount is read from the escrow, not recomputed"},
 		Real:        []string{"core/vmexecutor", "executor (operator, contract, miner)", "vm (EVM: CALL/CREATE/SELFDESTRUCT with value)", "service (ChangeAssets, fee processing, miner/refund/reward managers)", "storage/account balances in the bound token contract"},
 		Stub:        []string{"ConsensusHelper", "network", "NTP clock"},
@@ -121,6 +121,14 @@ func c06GenTx(r *simrt.Rand, i int) node.TxSpec {
 			s.Value = []string{"-1", "-0.25"}[r.Intn(2)]
 		}
 		s.Gas = []uint64{0, 629999, 630000, 640000, 700000, 1200000, 6000000}[r.Intn(7)]
+		if r.Chance(0.08) {
+			// a declared gas limit whose fee (limit x price) does not fit 64 bits, from an account that cannot pay it
+			s.Gas = []uint64{18446744074, 18446744073709551615, 1 << 63, 36893488148}[r.Intn(4)]
+			if r.Chance(0.7) {
+				s.From = 7
+				s.Value = "0"
+			}
+		}
 		s.Eth = r.Chance(0.35)
 		if s.Eth && r.Chance(0.15) {
 			s.NDelta = []int{-1, 1}[r.Intn(2)]
